@@ -1106,6 +1106,19 @@ ext_build(const curve_t *c)
 			got += ext_try(c, x, cls);
 		}
 	}
+	/* coordinates made of ones: 2^bits - 1 with one bit cleared (below p when the bit is high enough), minus a small
+	   k until the value is the abscissa of a point: nearly every limb of every representation is at its maximum,
+	   which is where the carry-propagation budgets of the multiplication routines are tightest */
+	{
+		int bits = (int)mpz_sizeinbase(c->zp, 2), j, step = g_thorough ? 7 : 37, want = g_thorough ? 24 : 4, tot = 0;
+		for (j = bits - 2; j >= 0 && tot < want; j -= step) {
+			mpz_set_ui(x, 1); mpz_mul_2exp(x, x, (mp_bitcnt_t)bits); mpz_sub_ui(x, x, 1);
+			mpz_clrbit(x, (mp_bitcnt_t)j);
+			if (mpz_cmp(x, c->zp) >= 0) continue;
+			for (k = 0, got = 0; k <= 40 && !got; k ++) { got = ext_try(c, x, "ext-ones"); mpz_sub_ui(x, x, 1); }
+			tot += got;
+		}
+	}
 	mpz_clear(x);
 }
 
